@@ -485,6 +485,13 @@ func (ex *Exec) builtinAppend(st *State, fr *Frame, cc *ssa.CallCommon, args []V
 		b := ex.stringToBytes(st, x).(SliceV)
 		t = b
 	case RopeRef:
+		// append([]byte{}, buf.Bytes()...): an independent copy that still carries the rope
+		if (s.obj == 0 || (s.len.isConst && s.len.v == 0)) && isInt {
+			rope := ex.ropeOf(st, x)
+			id := st.alloc(nil, StructV{f: []Value{rope}})
+			fr.env[ins] = RopeRef{buf: PtrV{obj: id}, n: -1}
+			return true
+		}
 		b := ex.stringToBytes(st, ex.ropeOf(st, x)).(SliceV)
 		t = b
 	default:
